@@ -118,3 +118,24 @@ mutant("c05-single-spread-literal-returns-operand",
        [(E, "            let vals = eval_list_items(context, scopes, items)\n                .context(EvalListItemsFailed)?;\n\n            Ok(value::new_list(vals))",
             "            if items.len() == 1 && items[0].is_spread {\n                let v = eval_expr(context, scopes, &items[0].expr)\n                    .context(EvalListItemFailed)?;\n                if let Value::List(_) = v.v {\n                    return Ok(value::new_val_ref_with_no_source(v.v));\n                }\n            }\n\n            let vals = eval_list_items(context, scopes, items)\n                .context(EvalListItemsFailed)?;\n\n            Ok(value::new_list(vals))")],
        [("C05", "R05.4")], note="[ys..] returns ys itself")
+
+# ---- C19 / C12 -----------------------------------------------------------------
+mutant("c19-bind-rest-in-hash-order",
+       [(B, "                    let new_rhs: BTreeMap<String, SourcedValue> =\n                        remaining_keys\n                            .iter()\n                            .map(|k| (\n                                k.clone(),\n                                lock_deref!(rhs)[k].clone(),\n                            ))\n                            .collect();",
+            "                    let mut new_rhs: BTreeMap<String, SourcedValue> = BTreeMap::new();\n                    let mut first_key = String::new();\n                    for k in remaining_keys.iter() {\n                        if first_key.is_empty() { first_key = k.clone(); }\n                        new_rhs.insert(k.clone(), lock_deref!(rhs)[k].clone());\n                    }\n                    let _ = first_key;")],
+       [("C19", "R19.2")], note="hash-ordered iteration consumed in order by a loop")
+mutant("c19-env-var-debug-mode",
+       [(MAIN, "    let mut scopes = ScopeStack::new(vec![]);",
+               "    if env::var(\"SEED_TRACE\").is_ok() {\n        eprintln!(\"trace: running {}\", cur_script_path.display());\n    }\n    let mut scopes = ScopeStack::new(vec![]);")],
+       [("C19", "R19.1")])
+mutant("c19-object-as-hashmap",
+       [("src/eval/value.rs", "pub type Object = BTreeMap<String, SourcedValue>;", "pub type Object = std::collections::HashMap<String, SourcedValue>;")],
+       [("C19", "R19.3"), ("C12", "R12.1")], note="may not compile (BTreeMap-specific calls)")
+mutant("c19-identity-by-address-print",
+       [("src/builtins/fns.rs", "            s += &format!(\"<function '{name:?}'>\");", "            s += &format!(\"<function '{name:?}' at {:p}>\", Arc::as_ptr(&f));"),
+        ("src/builtins/fns.rs", "use snafu::ResultExt;", "use snafu::ResultExt;\nuse std::sync::Arc;")],
+       [("C19", "R19.4")])
+mutant("c12-prop-assign-inserts-even-with-op",
+       [(B, "                    let name = name.clone();\n\n                    if op.is_some() {\n                        return new_loc_err(Error::OpOnUndefinedProp{name});\n                    }\n\n                    lock_deref!(props).insert(name, rhs);",
+            "                    let name = name.clone();\n\n                    lock_deref!(props).insert(name, rhs);")],
+       [("C12", "R12.2")], note="o.k += v on a missing key silently inserts")
